@@ -103,6 +103,33 @@ fn str_label(s: &str, src: &str) -> String {
     format!("str:{l}")
 }
 
+/// short literals are their own class; long ones (>= 15 digits) are classed by sign, lexical
+/// form, digit count and magnitude range, so that one defect does not get one signature per literal
+fn num_label(v: f64, src: &str) -> String {
+    let nd = src.bytes().filter(|b| b.is_ascii_digit()).count();
+    if nd < 15 {
+        return format!("num:{src}");
+    }
+    let form = if src.contains(['e', 'E']) {
+        "exp"
+    } else if src.contains('.') {
+        "frac"
+    } else {
+        "int"
+    };
+    let m = v.abs();
+    let range = if m < 9007199254740992.0 {
+        "below2^53"
+    } else if m < 9223372036854775808.0 {
+        "2^53..2^63"
+    } else if m < 18446744073709551616.0 {
+        "2^63..2^64"
+    } else {
+        "from2^64"
+    };
+    format!("num:{}{form}-{nd}digits-{range}", if src.starts_with('-') { "neg-" } else { "" })
+}
+
 fn len_bucket(n: usize) -> &'static str {
     if n <= 255 {
         "len<=255"
@@ -118,7 +145,7 @@ fn class(t: &T) -> String {
         T::Null => "null".into(),
         T::Bool(true) => "true".into(),
         T::Bool(false) => "false".into(),
-        T::Num(_, src) => format!("num:{src}"),
+        T::Num(v, src) => num_label(*v, src),
         T::Str(s, src) => str_label(s, src),
         T::Arr(v) => format!("arr{}", v.len().min(9)),
         T::Obj(v) => format!("obj({})", key_pattern(v)),
@@ -666,7 +693,7 @@ fn look(v: &JsonbValue, t: &T, bx: &mut Bx, st: &mut Stats) {
 }
 
 /// every path of the tree: object steps by key, array steps by (canonical decimal) index;
-/// + one step beyond scalars (a word and a digit step), + missing word / digit-only keys in
+/// + one step beyond scalars (a word and a digit step), + a missing word key and a missing digit-only key in
 /// every object, + the out-of-range index and a non-index step in every array
 fn paths(t: &T, prefix: &mut Vec<String>, out: &mut std::collections::BTreeSet<Vec<String>>) {
     fn child(v: &T, prefix: &mut Vec<String>, out: &mut std::collections::BTreeSet<Vec<String>>) {
@@ -689,15 +716,17 @@ fn paths(t: &T, prefix: &mut Vec<String>, out: &mut std::collections::BTreeSet<V
                 child(v, prefix, out);
                 prefix.pop();
             }
-            for missing in ["zz", "0", "1"] {
+            for missing in ["zz", "0"] {
                 if entries.iter().any(|(k, _)| key_of(k) == missing) {
                     continue;
                 }
                 prefix.push(missing.into());
                 out.insert(prefix.clone());
-                prefix.push("a".into());
-                out.insert(prefix.clone());
-                prefix.pop();
+                if missing == "zz" {
+                    prefix.push("a".into());
+                    out.insert(prefix.clone());
+                    prefix.pop();
+                }
                 prefix.pop();
             }
         }
@@ -789,7 +818,11 @@ fn step_classes(tree: &T, path: &[String]) -> String {
         out.push(cls);
         cur = next;
     }
-    out.join(",")
+    // blame the last step (every shorter prefix is a path of its own and is judged first)
+    match out.last() {
+        None => "empty-path".to_string(),
+        Some(c) => format!("step({c})@{}", if out.len() == 1 { "first" } else { "deeper" }),
+    }
 }
 
 /// all view-level oracles on one JSONB byte string
@@ -836,7 +869,14 @@ fn check_bytes(bytes: &[u8], tree: &T, pre: &str, hint: Option<&str>, pol: Polic
         paths(tree, &mut Vec::new(), &mut ps);
         ps.insert(Vec::new());
         let owned = OwnedValue::Jsonb(bytes.to_vec());
+        // BTreeSet order lists every prefix before its extensions: stop at divergence per path prefix
+        let mut diverged: Vec<&Vec<String>> = Vec::new();
         for p in &ps {
+            if diverged.iter().any(|d| p.len() > d.len() && p[..d.len()] == d[..]) {
+                st.add("get_path_pruned_below_divergent_prefix", 1);
+                continue;
+            }
+            let nfails = bx.fails.len();
             let pr: Vec<&str> = p.iter().map(|s| s.as_str()).collect();
             st.add("get_path_calls", 1);
             let (step_v, via_array) = stepwise(&view, &pr);
@@ -852,7 +892,7 @@ fn check_bytes(bytes: &[u8], tree: &T, pre: &str, hint: Option<&str>, pol: Polic
             if via_array {
                 st.add("get_path_through_array_element", 1);
             }
-            let shape = format!("path({})-ends-{}", step_classes(tree, p), match &step { Some(Ok(t)) => kind(t), Some(Err(_)) => "unreadable", None => "absent" });
+            let shape = format!("{}-ends-{}", step_classes(tree, p), match &step { Some(Ok(t)) => kind(t), Some(Err(_)) => "unreadable", None => "absent" });
             match (&step, &gp) {
                 (None, None) => st.add("get_path_absent", 1),
                 (Some(Ok(a)), Some(Ok(b))) => {
@@ -880,6 +920,9 @@ fn check_bytes(bytes: &[u8], tree: &T, pre: &str, hint: Option<&str>, pol: Polic
                 (Some(Ok(a)), Some(Ok(b))) if teq(a, b, pol) => st.add("owned_get_path_present", 1),
                 (Some(Ok(_)), None) if via_array => {}
                 _ => bx.fail("owned-get_path", shape, "differs-from-view".into(), format!("{:?}", step.as_ref().map(|r| r.as_ref().map(show))), format!("{:?}", og.as_ref().map(|r| r.as_ref().map(show)))),
+            }
+            if bx.fails.len() > nfails {
+                diverged.push(p);
             }
         }
         match tree {
@@ -1492,7 +1535,7 @@ impl Check for C32 {
             "numbers are compared by f64 value (-0 = 0); std's str::parse::<f64> is trusted for re-reading to_json_string output",
             "duplicate keys: undocumented, so first-wins or last-wins are both accepted, but the choice made for {\"a\":0,\"a\":1} must hold for every object (reported otherwise); objects compare as maps under that choice, key order and to_json_string number formatting are free",
             "out-of-range array index and lookups through a non-object may answer None or Err",
-            "get_path is compared with stepwise calls of the real single-step accessors (differential): get(key) on objects, array_get(i) on arrays for canonical decimal index steps; get / array_get themselves are compared with the generated tree. Paths tried per document: every key/index path of the tree, one word and one digit step beyond every scalar, the missing keys zz/0/1 in every object, the out-of-range index and a word step in every array",
+            "get_path is compared with stepwise calls of the real single-step accessors (differential): get(key) on objects, array_get(i) on arrays for canonical decimal index steps; get / array_get themselves are compared with the generated tree. Paths tried per document: every key/index path of the tree, one word and one digit step beyond every scalar, the missing keys zz and 0 in every object, the out-of-range index and a word step in every array",
             "stepping INTO array elements is not promised for get_path: for a path through an array element 'absent' is accepted, but an answer must be the stepwise one; a path that never crosses an array must agree exactly",
             "text round trip: parse_json(to_json_string(jsonb)) must give the document again (numbers by f64 value) whenever to_json_string's text is itself correct according to the harness parser",
             "generated tree and text are cross-checked by the harness's own parser on every document (machinery error on disagreement)",
